@@ -304,7 +304,7 @@ PLANS["C10"] = {
             "twin session. distinct = distinct (open structures, failing token, trailer, style)",
     "assumptions": ["the source counter (<buffer#N>) and the instruction meter legitimately move when a source is rejected",
                     "a source is 'rejected while building' when compile() returns the error, or eval() returns it without having added code"],
-    "require": [need("rejected_sources", 100000), need("hook_invariants_checked", 100000), need("probes_compared", 300000),
+    "require": [need("history_sources_failing_at_run_time", 5000), need("rejected_sources", 100000), need("hook_invariants_checked", 100000), need("probes_compared", 300000),
                 need("runtime_failures", 20000), need("runtime_probes", 50000), need_set("failure_kinds", 31), need_set("open_structures", 60),
                 need_set("probe_kinds", 19), need("repl_twin_sessions_compared", 60), need("repl_runtime_sessions_checked", 20)],
 }
@@ -374,11 +374,13 @@ PLANS["C17"] = {
     },
     "rule": "a case plants one failing token (10 build-time kinds: unknown words incl. multi-byte names, bad literals, unbalanced "
             "closers, store to an unknown variable; 10 run-time kinds: division, type, out-of-bounds, assert, assert-eq, error, rem, "
-            "loop index outside a loop) in one of 16 scenarios (top level, loop, if, word called from the same source, from a later "
+            "loop index outside a loop; control-structure openers given a non-flag / non-integer: if, while, do) in one of 17 scenarios (top level, loop, if, word called from the same source, from a later "
             "source, through a chain of 2..5 calls, meta block, word called inside a meta block, included file, first token after an "
             "include, text injected with ~) and the token after it, the same text submitted 2..4 times, a second failing source after a "
             "first, inside a half-built definition, in the code of a file's first load after the file was included a second time (unchanged or edited in between), "
-            "in a program resumed with run() after the host repaired the stack following an underflow), preceded by 0..3 earlier sources (one in four rejected) and by filler with LF / "
+            "in a program resumed with run() after the host repaired the stack following an underflow, inside a user-defined immediate word that "
+            "runs while a later source is built), a quarter of the plain scenarios ending right after the failing token or with a comment whose last "
+            "character is multi-byte and no line end, preceded by 0..3 earlier sources (one in four rejected) and by filler with LF / "
             "CRLF / tabs / blank lines / multi-byte text / line and multi-line comments. last_err_location() must name the source "
             "(by the monitor's own count of interned sources, or the include path), the token's byte offset and text, line and column "
             "in characters, the quoted line; pretty_error() must show source:line:col and the line; debug map and code have equal "
@@ -389,7 +391,9 @@ PLANS["C17"] = {
                 need("with_multibyte_on_the_same_line_before_token", 20000), need("with_tab_before_token", 50000)] +
                [need("scenario:%s" % s, 10000) for s in ["top", "loop", "if", "called-word-same-source", "called-word-earlier-source", "deep-call-chain",
                                                        "meta-block", "word-in-meta", "included-file", "after-include", "injected-text",
-                                                       "identical-sources", "second-error", "definition-body-build-error", "file-included-twice", "resumed-run"]],
+                                                       "identical-sources", "second-error", "definition-body-build-error", "file-included-twice", "resumed-run",
+                                                       "immediate-word-fails-during-a-later-build"]] +
+               [need("token_on_last_line_without_line_end", 30000)],
 }
 
 PLANS["C06"] = {
